@@ -42,6 +42,26 @@ func scratchDir(prefix string) string {
 	return d
 }
 
+// raceReport returns the head of the race detector's log when the binary runs with
+// GORACE=log_path=<prefix> (the detector appends ".<pid>") and a race was reported by
+// this process; "" otherwise.
+func raceReport() string {
+	prefix := ""
+	for _, f := range strings.Fields(os.Getenv("GORACE")) {
+		if strings.HasPrefix(f, "log_path=") {
+			prefix = strings.TrimPrefix(f, "log_path=")
+		}
+	}
+	if prefix == "" {
+		return ""
+	}
+	b, err := os.ReadFile(fmt.Sprintf("%s.%d", prefix, os.Getpid()))
+	if err != nil || !strings.Contains(string(b), "DATA RACE") {
+		return ""
+	}
+	return firstLines(string(b), 60)
+}
+
 func firstLines(s string, n int) string {
 	lines := strings.Split(s, "\n")
 	if len(lines) > n {
